@@ -135,7 +135,7 @@ def iterfit(xdata, ydata, invvar=None, upper=5, lower=5, x2=None, maxiter=10, gr
                 outmask[xsort] = maskwork
                 return (sset, outmask)
             elif error == 0:
-                maskwork, qdone = djs_reject(ywork, yfit, inmask=None, outmask=maskwork, invvar=invwork, lower=lower, upper=upper, groupbadpix=groupbadpix)
+                maskwork, qdone = djs_reject(ywork, yfit, inmask=inmask, outmask=maskwork, invvar=invwork, lower=lower, upper=upper, groupbadpix=groupbadpix)
             else:
                 pass
         if not __brk0:
